@@ -666,13 +666,15 @@ where
 fn ops_for(len: usize, lattice: bool) -> Vec<Op> {
     let mut v = vec![Op::Next, Op::NextBack];
     let args: Vec<usize> = if lattice {
-        let mut a = vec![0, 1, 2, len.saturating_sub(1), len, len + 1, usize::MAX];
+        let mut a = vec![0, 1, 2, len.saturating_sub(1), len, len + 1, isize::MAX as usize + 1, usize::MAX - 1, usize::MAX];
         a.sort();
         a.dedup();
         a
     } else {
         let mut a: Vec<usize> = (0..=len + 2).collect();
-        a.push(usize::MAX);
+        // arguments at which `index + n` (or a pointer offset of n elements) wraps: only after front consumption, and
+        // on a fast path only for the element types that take it
+        a.extend([isize::MAX as usize + 1, usize::MAX - 1, usize::MAX]);
         a
     };
     for &k in &args {
@@ -975,11 +977,13 @@ fn main() {
     // heap-owning elements (a Box payload): a typed copy of a slot whose element was already dropped is then a dangling Box,
     // which the memory-monitor substrates can see (for plain integers every bit pattern is valid)
     units!(&mut ctx, &mut tot, &mut unit, false, 0, [TrB], [0, 1, 2, 3, 4]);
+    // elements without drop glue (a `needs_drop` fast path is taken by these only)
+    units!(&mut ctx, &mut tot, &mut unit, false, 4, [u32], [0, 1, 2, 3, 4]);
     if thorough {
         units!(&mut ctx, &mut tot, &mut unit, false, 0, [Tr<0>, TrZ], [13, 14, 15, 16, 17]);
         units!(&mut ctx, &mut tot, &mut unit, false, 0, [Tr<0>], [31, 32, 33]);
         units!(&mut ctx, &mut tot, &mut unit, true, 0, [Tr<0>, TrZ, u32], [64, 100]);
-        units!(&mut ctx, &mut tot, &mut unit, false, 4, [u32], [0, 1, 2, 3, 4]);
+        units!(&mut ctx, &mut tot, &mut unit, false, 0, [u32], [5, 6, 7, 8]);
         // complete position graphs of larger arrays (argument lattice): optimised build only (about 100 s per unit there,
         // the better part of an hour without optimisation)
         if !cfg!(debug_assertions) || ctx.only.is_some() {
